@@ -75,6 +75,11 @@ def run(tier: str = "quick", seed: int = 0) -> dict:
         parent = ref_tables(root)
         t = Tree(root)
         distinct.add(str(desc))
+        # the hypothesis of C07's agreement lemmas (tree_consistent), clause by clause, on every enumerated tree
+        from . import c07 as _c07
+        tc = _c07.tree_consistent_problems(root)
+        if tc:
+            fail(f"{desc}: the tree's tables do not agree with the downward enumerations: {tc[:3]}")
         xps = {}
         for n in nodes:
             evals += 1
@@ -154,5 +159,5 @@ def run(tier: str = "quick", seed: int = 0) -> dict:
             samples.append({"tree": str(desc), "nodes": len(nodes)})
         M.detach_all(root)
     return {"evaluations": evals, "distinct_nontrivial": len(distinct),
-            "rule": f"model trees <= {maxn} nodes (every 2nd in quick tier) plus twins-at-different-positions, same-id twins (detached + re-created) inside one tree, a depth-4 chain and a 12-tuple; every node as argument of every unary query, every pair for is_ancestor / relative depth (followed by an absolute depth query), registered foreign duplicates of members; oracle = independent parent table from a recursive walk; distinct = tree",
+            "rule": f"model trees <= {maxn} nodes (every 2nd in quick tier) plus twins-at-different-positions, same-id twins (detached + re-created) inside one tree, a depth-4 chain and a 12-tuple; every node as argument of every unary query, every pair for is_ancestor / relative depth (followed by an absolute depth query), registered foreign duplicates of members; oracle = independent parent table from a recursive walk; on every tree also the clauses of tree_consistent (children / descendants of every member == the recorded positions with that parent / ancestor; root unique; chains); distinct = tree",
             "samples": samples, "failures": failures, "bound": f"trees <= {maxn} nodes"}
